@@ -36,8 +36,9 @@ def main():
     for f in sorted(os.listdir(d)):
         if not f.endswith(".tla"):
             continue
-        if "Apalache" in open(os.path.join(d, f)).read().split("VARIABLES")[0].split("EXTENDS", 1)[-1].split("\n")[0]:
-            continue   # typed copies for Apalache (its standard module is not on the TLC/SANY path); parsed by apalache-mc itself
+        ext = open(os.path.join(d, f)).read().split("EXTENDS", 1)[-1].split("\n")[0]
+        if "Apalache" in ext or "TLAPS" in ext:
+            continue   # modules for Apalache / TLAPS (their standard modules are not on the TLC/SANY path); parsed by those tools
         r = subprocess.run(["java", "-cp", vlib.TLAJAR + ":" + vlib.CMJAR + ":.", "tla2sany.SANY", f], cwd=d, capture_output=True, text=True)
         if r.returncode != 0 or "error" in (r.stdout + r.stderr).lower().replace("errors: 0", ""):
             if "Semantic errors" in r.stdout or "Parse Error" in r.stdout or "Fatal" in r.stdout or r.returncode != 0:
